@@ -1,4 +1,4 @@
-import FluentProofs.ParserLoops
+import FluentProofs.ParserLines
 /-!
 # C03 — syntax errors are contained: Junk accounting and per-entry recovery
 
@@ -15,10 +15,20 @@ Proved here (accounting part of the property, both parsers):
 * `C03_ok_iff_no_junk…`: the error list is empty exactly when the tree has no Junk
   (the Rust API returns `Ok` exactly when the error list is empty).
 
-Not yet a theorem (kept visible, checked by the correspondence harness and the property predicate on the
-implementation): `C03_full_statement` — Junk starts at a line start and `slice.start ≤ pos.start`
-(needs the per-function cursor lemmas of C01), every admitted entry satisfies the documented rules,
-and containment of a damaged entry.
+* `C03_full` (= `C03_full_statement`, for EVERY byte source on which `parse` finishes; `C03_full_string` for every
+  `String`, where it always finishes) and `C03_full_runtime`: in addition every error's slice `a..b`
+  starts at a line start (`a = 0` or the byte before `a` is `\n`) and `a ≤ pos.start` — so together with
+  `Acc.ends` the Junk range contains the error position, starts at a line start and ends where the next entry
+  begins.  Proof (`FluentProofs/ParserLines.lean`): (1) `Mono` — every cursor and every error position
+  produced by a parser function started at `p` is `≥ p` (all eight mutually recursive functions, by
+  induction on fuel; `get_comment`, `get_message`, `get_term`), and junk recovery / `clampErr` never move
+  before the entry start; (2) every iteration of both entry loops starts at a line start: a pattern can only
+  end at a line start or EOF (`getPatternLoop_LSE`), `get_attributes` rewinds to one, `get_comment` /
+  `skip_comment` end at a line start, at EOF or AT the `\n` of a line end, and `skip_blank_block` turns
+  each of those into a line start (`skipBlankBlock_LSE`).
+
+Not a Lean theorem (checked by the correspondence harness and the property predicate on the
+implementation): every admitted entry satisfies the documented rules, and containment of a damaged entry.
 -/
 namespace FluentProofs.C03
 open FluentModel.Syntax
@@ -70,11 +80,55 @@ theorem C03_junk_is_slice (s : Src) (body : Resource Span) (errs : List PErr)
   simp [hi, hi'] at this
   exact this
 
-/-- the part of the property not yet proved as a theorem (see the header) -/
+/-- full accounting statement: `Acc`, and every error's slice starts at a line start at or before the
+error position (proved below: `C03_full`) -/
 def C03_full_statement : Prop :=
   ∀ (s : Src) (body : Resource Span) (errs : List PErr), parse s = .done (body, errs) →
     Acc s body errs ∧
     (∀ e ∈ errs, ∃ a b, e.slice = some (a, b) ∧ a ≤ e.posStart ∧ (a = 0 ∨ s[a - 1]? = some 10))
+
+/-- the same for the runtime parser -/
+def C03_full_statement_runtime : Prop :=
+  ∀ (s : Src) (body : Resource Span) (errs : List PErr), parseRuntime s = .done (body, errs) →
+    Acc s body errs ∧
+    (∀ e ∈ errs, ∃ a b, e.slice = some (a, b) ∧ a ≤ e.posStart ∧ (a = 0 ∨ s[a - 1]? = some 10))
+
+/-- **C03 accounting, complete (full parser)**: for every source, errors and Junk correspond one-to-one in
+order, each Junk is exactly its error's slice, a valid slice that starts at a line start, ends at the next
+entry start (or EOF) and contains the error position. -/
+theorem C03_full : C03_full_statement := fun s body errs h =>
+  ⟨C03_accounting_parse s body errs h, FluentProofs.Parser.parse_errPos s body errs h⟩
+
+/-- **C03 accounting, complete (runtime parser)** -/
+theorem C03_full_runtime : C03_full_statement_runtime := fun s body errs h =>
+  ⟨C03_accounting_parseRuntime s body errs h, FluentProofs.Parser.parseRuntime_errPos s body errs h⟩
+
+/-- the error position lies inside the Junk: `slice.start ≤ pos.start ≤ slice.end` (both parsers share `Acc`) -/
+theorem C03_pos_in_junk (s : Src) (body : Resource Span) (errs : List PErr) (h : parse s = .done (body, errs)) :
+    ∀ e ∈ errs, ∃ a b, e.slice = some (a, b) ∧ a ≤ e.posStart ∧ e.posStart ≤ b := by
+  intro e he
+  obtain ⟨a, b, h1, h2, _⟩ := (C03_full s body errs h).2 e he
+  obtain ⟨a', b', h1', h2', _⟩ := (C03_full s body errs h).1.ends e he
+  rw [h1] at h1'; cases h1'
+  exact ⟨a, b, h1, h2, h2'⟩
+
+/-- **C03 for every `String`**: both parsers finish (C01) and the complete accounting statement holds. -/
+theorem C03_full_string (str : String) :
+    (∃ body errs, parse str.toUTF8.data = .done (body, errs) ∧ Acc str.toUTF8.data body errs ∧
+      ∀ e ∈ errs, ∃ a b, e.slice = some (a, b) ∧ a ≤ e.posStart ∧ (a = 0 ∨ str.toUTF8.data[a - 1]? = some 10)) ∧
+    (∃ body errs, parseRuntime str.toUTF8.data = .done (body, errs) ∧ Acc str.toUTF8.data body errs ∧
+      ∀ e ∈ errs, ∃ a b, e.slice = some (a, b) ∧ a ≤ e.posStart ∧ (a = 0 ∨ str.toUTF8.data[a - 1]? = some 10)) := by
+  open FluentProofs.Parser in
+  have hs := asciiThenBoundary_of_string str
+  have hA := skipBlankBlock_after str.toUTF8.data 0
+  have hb := hA.bnd hs (bnd_zero _)
+  constructor
+  · obtain ⟨⟨body, errs⟩, hr, _⟩ : Done str.toUTF8.data (parse str.toUTF8.data) :=
+      parseLoop_done hs _ [] [] none 0 _ hb.le hb (by omega) (by simp) (by simp) (by simp)
+    exact ⟨body, errs, hr, C03_full _ body errs hr⟩
+  · obtain ⟨⟨body, errs⟩, hr, _⟩ : Done str.toUTF8.data (parseRuntime str.toUTF8.data) :=
+      parseRuntimeLoop_done hs _ [] [] _ (fun _ => hb) (by omega) (by simp) (by simp)
+    exact ⟨body, errs, hr, C03_full_runtime _ body errs hr⟩
 
 /-- non-vacuity (a test, not the unbounded claim): `a = {` newline `b = c` gives one Junk `0..6`,
 one error, and the message `b` survives -/
